@@ -17,8 +17,15 @@ static OUT: Mutex<Option<BufWriter<Stdout>>> = Mutex::new(None);
 static CAREFUL: AtomicBool = AtomicBool::new(false);
 static LENCAP_CHECKS: AtomicU64 = AtomicU64::new(0);
 static LENCAP_VIOLATIONS: AtomicU64 = AtomicU64::new(0);
+/// no protocol output (warm-up history)
+static QUIET: AtomicBool = AtomicBool::new(false);
+static LEAK_RERUNS: AtomicU64 = AtomicU64::new(0);
+static LEAK_CHECKS: AtomicU64 = AtomicU64::new(0);
 
 fn put_line(line: &str, force_flush: bool) {
+    if QUIET.load(Ordering::Relaxed) {
+        return;
+    }
     let mut g = match OUT.lock() {
         Ok(g) => g,
         Err(p) => p.into_inner(),
@@ -60,7 +67,9 @@ struct Passed {
 /// alloc.ts `allocString`
 fn pass(s: &str) -> Passed {
     lencap_check(s);
+    super::checkalloc::skip_string_header(true);
     let ptr = ln::alloc_string(s.len());
+    super::checkalloc::skip_string_header(false);
     unsafe { std::ptr::copy_nonoverlapping(s.as_ptr(), ptr, s.len()) };
     Passed { ptr, len: s.len() }
 }
@@ -162,6 +171,23 @@ fn run_history(ops: &[Value], tb: &Tables) {
                 respond(json!(["rest", read_result()]));
             }
             "F" => {
+                // self-test of the checking allocator (never set by ./check): C19_ALLOC_SELFTEST=leak|double-free|layout-mismatch
+                // makes the WORKER misbehave at every free_task call, the way a loader bug would
+                match std::env::var("C19_ALLOC_SELFTEST").as_deref() {
+                    Ok("leak") => {
+                        std::hint::black_box(Box::leak(std::hint::black_box(Box::new([7u8; 100]))));
+                    }
+                    Ok("double-free") => unsafe {
+                        let p = std::hint::black_box(std::alloc::alloc(std::alloc::Layout::from_size_align_unchecked(40, 1)));
+                        std::alloc::dealloc(std::hint::black_box(p), std::alloc::Layout::from_size_align_unchecked(40, 1));
+                        std::alloc::dealloc(std::hint::black_box(p), std::alloc::Layout::from_size_align_unchecked(40, 1));
+                    },
+                    Ok("layout-mismatch") => unsafe {
+                        let p = std::hint::black_box(std::alloc::alloc(std::alloc::Layout::from_size_align_unchecked(40, 1)));
+                        std::alloc::dealloc(std::hint::black_box(p), std::alloc::Layout::from_size_align_unchecked(std::hint::black_box(48), 1));
+                    },
+                    _ => {}
+                }
                 ln::free_task(idx(op, 1));
                 respond(json!(["freed"]));
             }
@@ -175,7 +201,45 @@ fn run_history(ops: &[Value], tb: &Tables) {
     }
 }
 
+/// One history on a fresh loader instance, under the checking allocator (c19/checkalloc.rs): fresh thread = fresh
+/// thread-locals; `join` waits for the thread's TLS destructors too (they drop the remaining tasks and their source buffers).
+/// Afterwards everything the history allocated must be gone (the `Box<String>` headers `alloc_string` leaks are not
+/// recorded). What a first use initialises once per process (parser tables, std's thread bookkeeping, …) also survives:
+/// a history that leaves blocks behind is therefore run a SECOND time (silently; it is deterministic) and only what the
+/// second run leaves behind as well is a leak, reported as line `k <json>`.
+fn run_in_fresh_instance(ops: Vec<Value>, tb: &Arc<Tables>) {
+    let run = |ops: Vec<Value>| -> (i64, i64) {
+        let tb2 = tb.clone();
+        super::checkalloc::begin_epoch();
+        let t = std::thread::Builder::new().stack_size(8 << 20).spawn(move || run_history(&ops, &tb2)).expect("spawn history thread");
+        let _ = t.join();
+        super::checkalloc::epoch_stats()
+    };
+    if !super::checkalloc::enabled() {
+        run(ops);
+        return;
+    }
+    let again = ops.clone();
+    LEAK_CHECKS.fetch_add(1, Ordering::Relaxed);
+    if run(ops) == (0, 0) {
+        return;
+    }
+    LEAK_RERUNS.fetch_add(1, Ordering::Relaxed);
+    QUIET.store(true, Ordering::Relaxed);
+    let (live, bytes) = run(again);
+    QUIET.store(false, Ordering::Relaxed);
+    if (live, bytes) != (0, 0) {
+        let mut blocks = [(0usize, 0u32); 12];
+        let n = super::checkalloc::epoch_live_blocks(12, &mut blocks);
+        let shown: Vec<Value> = blocks[..n.min(12)].iter().map(|(s, a)| json!([s, a])).collect();
+        put_line(&format!("k {}", json!({ "live_blocks": live, "live_bytes": bytes, "some_live_blocks_size_align": shown })), false);
+    }
+}
+
 pub fn main(careful: bool) {
+    if std::env::var("C19_NO_ALLOC_CHECK").is_ok() {
+        super::checkalloc::disable(); // measurement knob
+    }
     CAREFUL.store(careful, Ordering::Relaxed);
     *OUT.lock().unwrap() = Some(BufWriter::with_capacity(1 << 16, std::io::stdout()));
     std::panic::set_hook(Box::new(|info| {
@@ -205,16 +269,17 @@ pub fn main(careful: bool) {
                 continue;
             }
         };
-        let tb2 = tb.clone();
-        // fresh thread = fresh thread-locals = fresh loader instance; `join` waits for the thread's
-        // TLS destructors too (they drop the remaining tasks and their source buffers)
-        let t = std::thread::Builder::new().stack_size(8 << 20).spawn(move || run_history(&ops, &tb2)).expect("spawn history thread");
-        let _ = t.join();
+        run_in_fresh_instance(ops, &tb);
         put_line("e", true);
     }
     let s = json!({
         "lencap_checks": LENCAP_CHECKS.load(Ordering::Relaxed),
         "lencap_violations": LENCAP_VIOLATIONS.load(Ordering::Relaxed),
+        "alloc_checked_frees": super::checkalloc::checked_frees(),
+        "alloc_leak_checks": LEAK_CHECKS.load(Ordering::Relaxed),
+        "alloc_leak_reruns": LEAK_RERUNS.load(Ordering::Relaxed),
+        "alloc_string_headers_not_recorded": super::checkalloc::skipped_headers(),
+        "alloc_table_overflow": super::checkalloc::overflowed(),
     });
     put_line(&format!("s {}", serde_json::to_string(&s).unwrap()), true);
 }
